@@ -1,36 +1,37 @@
------------------------------- MODULE T_Ring ------------------------------
-(* Trace specification for C45: replays the calls recorded from real hashring.Ring instances (one per
-   node) against module Ring.  Verdicts come from the property layer only (owner is a current member with
-   its current value; same member set and key => same owner, whatever ring/history).  With Exact = TRUE
-   (T_Ring_exact.cfg) the owner is additionally compared with Owner(...) computed from the table-driven
-   hash of the trace - a mismatch there is reported as drift of the implementation-shaped model.
+------------------------------- MODULE T_Ring -------------------------------
+(* Trace specification for C32: replays the calls recorded from the real goldmane/pkg/storage
+   BucketRing (explicit time) against P_Ring.
+     reset      - NewBucketRing(n, interval, now, pushAfter, bucketsToAggregate)
+     add        - AddFlow of a flow (key, start time ts, four counters)
+     roll_begin - Rollover(sink or nil) is entered        (history moves one interval forward)
+     emit       - the sink received a FlowCollection [s, e) with per-key aggregated counters
+     roll_end   - Rollover returned
+     list       - List over [gte, lt) (0 = open) with the per-key aggregated counters it returned
+     stats      - Statistics(PacketCount, by policy) over [gte, lt) mapped back to flow keys           *)
+EXTENDS TraceLib, FiniteSets, Integers
 
-   events   reset {r, p, q, exact, htab}     htab[s][i+1] = hash (0..q-1) of string s with salt i
-            ins {n, m, ver} / rem {n, m}     Insert / Remove on node n's ring
-            lookup {n, k, f, m, ver}         Lookup(k) answered (found, member, value)
-            lookups {n, ks, fs, ms, vers}    a batch of Lookups with no mutation in between (parallel lists)
-            len {n, len}                                                                        *)
-EXTENDS TraceLib, Ring
+VARIABLES n, interval, boh, eoh, acc, emitted
+vars == <<n, interval, boh, eoh, acc, emitted>>
 
-CONSTANT Exact
-VARIABLES cfgv      \* the reset record of the current trace
-vars == <<members, memo, cfgv>>
+TKeys == UNION { SeqToSet(Trace[i].keys) : i \in { j \in 1..NTrace : Trace[j].ev = "reset" } }
+P == INSTANCE P_Ring WITH Keys <- TKeys
 
-TInit == l = 1 /\ PInit /\ cfgv = [exact |-> FALSE]
+Rec(f) == [pin |-> f.pin, pout |-> f.pout, bin |-> f.bin, bout |-> f.bout]
+KeysOf(fl) == { fl[i].key : i \in DOMAIN fl }
+NoDup(fl) == Cardinality(KeysOf(fl)) = Len(fl)                   \* each key reported once
+Got(fl) == [k \in KeysOf(fl) |-> Rec(fl[CHOOSE i \in DOMAIN fl : fl[i].key = k])]
+GotPk(fl) == [k \in KeysOf(fl) |-> LET f == fl[CHOOSE i \in DOMAIN fl : fl[i].key = k] IN [pin |-> f.pin, pout |-> f.pout]]
 
-TReset == IsEvent("reset") /\ members' = EmptyFn /\ memo' = EmptyFn /\ cfgv' = Cur
-TIns == IsEvent("ins") /\ Insert(Cur.n, Cur.m, Cur.ver) /\ UNCHANGED cfgv
-TRem == IsEvent("rem") /\ Remove(Cur.n, Cur.m) /\ UNCHANGED cfgv
-ExactOK == (Exact /\ cfgv.exact /\ Cur.f) =>
-              Cur.m = Owner(cfgv.htab, cfgv.r, cfgv.p, cfgv.q, Live(Cur.n), Cur.k)
-TLookup == /\ IsEvent("lookup")
-           /\ Lookup(Cur.n, Cur.k, Cur.f, Cur.m, Cur.ver)
-           /\ ExactOK = TRUE
-           /\ UNCHANGED cfgv
-TLookups == /\ IsEvent("lookups")
-            /\ LookupBatch(Cur.n, Cur.ks, Cur.fs, Cur.ms, Cur.vers)
-            /\ UNCHANGED cfgv
-TLen == IsEvent("len") /\ LenIs(Cur.n, Cur.len) /\ UNCHANGED cfgv
+TInit == l = 1 /\ n = 0 /\ interval = 0 /\ boh = 0 /\ eoh = 0 /\ acc = <<>> /\ emitted = {}
 
-TNext == TReset \/ TIns \/ TRem \/ TLookup \/ TLookups \/ TLen
+TReset == IsEvent("reset") /\ P!Start(Cur.n, Cur.interval, Cur.now)
+TAdd   == IsEvent("add") /\ P!AddFlow([key |-> Cur.key, t |-> Cur.ts, pin |-> Cur.pin, pout |-> Cur.pout, bin |-> Cur.bin, bout |-> Cur.bout])
+TRollBegin == IsEvent("roll_begin") /\ P!Rollover
+TEmit  == IsEvent("emit") /\ NoDup(Cur.flows) /\ P!Emit(Cur.s, Cur.e, Got(Cur.flows))
+TRollEnd == IsEvent("roll_end") /\ UNCHANGED vars
+TList  == IsEvent("list") /\ NoDup(Cur.flows) /\ P!Query(Cur.gte, Cur.lt, Got(Cur.flows))
+TStats == IsEvent("stats") /\ ~Cur.err /\ NoDup(Cur.flows) /\ P!QueryPackets(Cur.gte, Cur.lt, GotPk(Cur.flows))
+
+TNext == TReset \/ TAdd \/ TRollBegin \/ TEmit \/ TRollEnd \/ TList \/ TStats
+TSpec == TInit /\ [][TNext]_<<vars, l>>
 =============================================================================
